@@ -153,8 +153,18 @@ func largeProgram(r *rand.Rand, items []largeItem) (segs []seg, data []byte, ops
 func runLarge(r *rand.Rand, segs []seg, data []byte, ops []op, wrap string, chunk int, eofLast bool, class string) vh.Case {
 	bb := bytex.NewReadableBufferX(cp(data))
 	obsB := make([]outc, 0, len(ops))
-	for _, o := range ops {
-		obsB = append(obsB, doBuf(bb, o))
+	for i := range ops {
+		// after a refused or failed read the next string read may find payload bytes where a length should be: a hostile
+		// announced length is not passed to the stream reader's ReadString (it allocates it); both sides read a u32 instead
+		if ops[i].k == "RStr" || ops[i].k == "RLimStr" {
+			if rest := bb.Bytes(); len(rest) >= 4 {
+				n := binary.LittleEndian.Uint32(rest[:4])
+				if n > largeCap && (ops[i].k == "RStr" || n <= ops[i].lim) {
+					ops[i] = op{k: "RU32"}
+				}
+			}
+		}
+		obsB = append(obsB, doBuf(bb, ops[i]))
 	}
 	restB := outc{k: "bytes", bs: cp(bb.Bytes())}
 	// chunk sizes: chunk > 0 = equal chunks, chunk < 0 = random sizes, 0 = everything at once
